@@ -8,7 +8,7 @@ rebuilt from /repo and all of them compared with the same reference model (set m
      menu is looked up with _gi_typelib_hash_search followed by the caller's final strcmp exactly as
      g_typelib_get_dir_entry_by_name does (vt/c/drv_hash.c, mode `subsets`), for several srand seeds
      (cmph's BDZ chooses one of 15 hash functions with rand() % 15; thorough covers all 15 first draws).
- (T) real typelibs: subsets are rendered as GIR (constants, enumerations with/without GType and error
+ (T) real typelibs: subsets are rendered as GIR (constants, enumerations and bitfields with/without GType and error
      domain, records with/without GType), compiled by the rebuilt g-ir-compiler, and probed through
      g_typelib_get_dir_entry_by_name WITH the directory index and with the index section id patched to
      GI_SECTION_END (linear fallback), g_irepository_find_by_name, g_typelib_get_dir_entry_by_gtype_name
@@ -55,12 +55,15 @@ GTN = [b'TAa', b'TAb', b'TBa', b'TaA', b'TAA', b'tAa', b'TAa_', b'TAa1', TLONG +
 # error domain strings
 DOM = [b'a', b'b', b'ab', b'ba', b'aa', b'A', b'a-', b'a1', LONG + b'x', LONG + b'y', b'xq', b'yq', b'abc',
        'né-quark'.encode('utf-8')]
-KINDS = ['const', 'enum+gtype+domain', 'record+gtype', 'enum+domain', 'enum+gtype', 'record']
+# every kind of registered type (RegisteredTypeBlob header: struct/boxed, union, enum, flags, object, interface) with a
+# GType name, the kinds that may lack one also without, and a constant
+KINDS = ['const', 'enum+gtype+domain', 'record+gtype', 'union+gtype', 'enum+domain', 'flags+gtype', 'object+gtype',
+         'enum+gtype', 'record', 'interface+gtype', 'union', 'flags']
 PREFIXES = ['T', 'TA', 'X,T', 'Zz']
 NA = len(HASH_ALPHA)
 assert len(TL_ALPHA) == len(GTN) == len(DOM) == NA == 14
 
-BLOB = {'const': (9,), 'enum': (5,), 'record': (3, 4)}
+BLOB = {'const': (9,), 'enum': (5,), 'flags': (6,), 'record': (3, 4), 'union': (11,), 'object': (7,), 'interface': (8,)}
 LADDER_QUICK = [1, 2, 3, 255, 256, 257, 4096]
 LADDER_THOROUGH = LADDER_QUICK + [16384, 32768, 65535]
 
@@ -260,9 +263,12 @@ def entry_for(k, mask):
     dom = DOM[k].decode('utf-8') if 'domain' in kind else None
     if kind == 'const':
         return kind, girgen.ConstN(name, girgen.B('gint'), str(k)), None, None
-    if kind.startswith('enum'):
-        return kind, girgen.EnumN(name, [girgen.Member('m', str(k))], gtype=gt, error_domain=dom), gt, dom
-    return kind, girgen.RecordN(name, gtype=gt), gt, None
+    if kind.startswith(('enum', 'flags')):
+        return kind, girgen.EnumN(name, [girgen.Member('m', str(k))], flags=kind.startswith('flags'), gtype=gt,
+                                  error_domain=dom), gt, dom
+    if kind.startswith(('object', 'interface')):
+        return kind, girgen.ClassN(name, gtype=gt, interface=kind.startswith('interface')), gt, None
+    return kind, girgen.RecordN(name, gtype=gt, union=kind.startswith('union')), gt, None
 
 
 XR_NAME = b'xr'        # local record that carries the cross-namespace references (not an alphabet name)
@@ -915,7 +921,7 @@ def run(ctx):
     ctx.set(rule='(H) all %d non-empty subsets of the 14-name alphabet, srand seeds %r (cmph picks one of 15 hash functions with rand()), built and packed in-process by '
                  '_gi_typelib_hash_builder_*, %d probes each (members, proper prefixes, 1-char extensions, 1-char '
                  'substitutions, empty) through _gi_typelib_hash_search + final strcmp; (T) %d subsets compiled to real '
-                 'typelibs (6 entry kinds rotating over the names, 4 c:identifier-prefixes), each also next to a second '
+                 'typelibs (12 entry kinds rotating over the names: every registered-type kind - record, union, enum, flags, object, interface - with a GType name, record/union/enum/flags also without, constant, 4 c:identifier-prefixes), each also next to a second '
                  'namespace holding the complementary key set (2 of 3 with cross-namespace references to alphabet names absent '
                  'locally; load sequences eager / lazy / lazy-then-eager): %d name / %d GType-name / %d error-domain probes through '
                  'index, patched-away index (linear fallback), find_by_name / find_by_gtype (real GTypes) / '
